@@ -50,6 +50,7 @@ type Prog struct {
 	Unwrap    string   `json:"unwrap,omitempty"`
 	RangeFn   string   `json:"range_fn,omitempty"`
 	RangeS    int      `json:"range_s,omitempty"`
+	RangeMs   int      `json:"range_ms,omitempty"` // when set: the range in milliseconds (ranges need not be whole seconds)
 	Agg       string   `json:"agg,omitempty"`
 	Grouping  string   `json:"grouping,omitempty"` // "" | by | without
 	Labels    []string `json:"labels,omitempty"`
@@ -144,7 +145,7 @@ func (p Prog) Render() string {
 	if p.Unwrap != "" {
 		sel += " | unwrap " + p.Unwrap
 	}
-	q := fmt.Sprintf("%s(%s[%ds])", p.RangeFn, sel, p.RangeS)
+	q := fmt.Sprintf("%s(%s[%s])", p.RangeFn, sel, p.rangeText())
 	if len(p.RangeBy) > 0 {
 		q += fmt.Sprintf(" by (%s)", strings.Join(p.RangeBy, ", "))
 	}
@@ -378,7 +379,7 @@ type refPoint struct {
 
 // evalMetric computes, per output series, the value of every non-empty tumbling range bucket.
 func (p Prog) evalMetric(entries []refEntry) []refPoint {
-	rng := int64(p.RangeS) * 1e9
+	rng := p.rangeNs()
 	type acc struct {
 		labels                        map[string]string
 		n, sum, min, max, first, last float64
@@ -422,7 +423,7 @@ func (p Prog) evalMetric(entries []refEntry) []refPoint {
 		}
 	}
 	var pts []refPoint
-	secs := float64(p.RangeS)
+	secs := float64(p.rangeNs()) / 1e9
 	for k, bs := range series {
 		for b, a := range bs {
 			var v float64
@@ -598,6 +599,9 @@ func genC09(rt *rapid.T) C09Scenario {
 	}
 	if p.RangeFn != "" {
 		p.RangeS = rapid.SampledFrom([]int{1, 5, 60}).Draw(rt, "range")
+		if rapid.IntRange(0, 3).Draw(rt, "range.ms?") == 0 {
+			p.RangeMs = rapid.SampledFrom([]int{1500, 500, 2500}).Draw(rt, "range.ms")
+		}
 		if p.Unwrap != "" && rapid.Bool().Draw(rt, "rangeby?") {
 			p.RangeBy = []string{rapid.SampledFrom([]string{"level", "series", "app"}).Draw(rt, "rangeby")}
 		}
@@ -856,7 +860,7 @@ func c09body(ri *simcheck.RunInfo, s C09Scenario) {
 	}
 	// metric: robust comparison against tumbling buckets
 	ref := p.evalMetric(expEntries)
-	rng := int64(p.RangeS) * 1e9
+	rng := p.rangeNs()
 	refBy := map[string]map[int64]float64{}
 	for _, pt := range ref {
 		if refBy[pt.key] == nil {
@@ -1000,4 +1004,18 @@ func limitParam(l int) string {
 		return ""
 	}
 	return fmt.Sprint(l)
+}
+
+func (p Prog) rangeNs() int64 {
+	if p.RangeMs > 0 {
+		return int64(p.RangeMs) * 1e6
+	}
+	return int64(p.RangeS) * 1e9
+}
+
+func (p Prog) rangeText() string {
+	if p.RangeMs > 0 {
+		return fmt.Sprintf("%dms", p.RangeMs)
+	}
+	return fmt.Sprintf("%ds", p.RangeS)
 }
